@@ -46,7 +46,7 @@ var interpPkgs = map[string]bool{
 	"github.com/boljen/go-bitmap": true, "github.com/dchest/siphash": true, "internal/filepathlite": true,
 	"io/fs": true, "internal/oserror": true, "time": true, "io/ioutil": true, "os": true, "syscall": true,
 	"internal/byteorder": true, "net/http": true, "net/url": true, "net/textproto": true, "maps": true, "iter": true,
-	"container/list": true, "github.com/folbricht/tempfile": true, "hash/crc32": false, "archive/tar": true, "internal/godebug": false,
+	"container/list": true, "github.com/folbricht/tempfile": true, "github.com/hanwen/go-fuse/v2/fuse": true, "hash/crc32": false, "archive/tar": true, "internal/godebug": false,
 }
 
 // Packages whose init functions are run.
